@@ -652,13 +652,16 @@ def check_case(ctx, case):
             bad("options:priority" if pri and sorted(dict(obs["opts"])) == sorted(exp_kept) else "options:kept",
                 "kept options are not exactly the known keys whose converter succeeds (block over additional_options)", exp, obs["opts"])
         omsgs = [m for (k, _l), m in zip(obs["warns"], obs["msgs"]) if k == "O"]
+        values = set(merged_opts.values())
         for k in dropped:
+            if k in values:
+                continue    # the key also occurs as a value, which converter messages quote: naming is ambiguous
             n = sum(1 for m in omsgs if named_in(m, k))
             if n != 1:
                 bad("options:dropped-warning", f"dropped option {k!r} is named in {n} warnings (expected exactly 1)", 1, n)
                 break
         for k in exp_kept:
-            if any(named_in(m, k) for m in omsgs):
+            if k not in values and any(named_in(m, k) for m in omsgs):
                 bad("options:valid-warned", f"valid option {k!r} is named in a warning", 0, 1)
                 break
         if tokerr and len(omsgs) != 1:
